@@ -73,11 +73,19 @@ fn main() {
                         }
                     }
                 }
+                if let Ok(ms) = std::env::var("LEAK_INNER_SLEEP") { ntex::time::sleep(ntex::time::Millis(ms.parse().unwrap())).await; }
             });
             if chunk % 10 == 9 && std::env::var_os("LEAK_SLEEP").is_some() {
                 let _ = mqtt_verif::bed::with_system(async move { ntex::time::sleep(ntex::time::Millis(2500)).await });
             }
             if chunk % 10 == 9 {
+                #[repr(C)]
+                #[derive(Default, Debug)]
+                struct Mallinfo2 { arena: usize, ordblks: usize, smblks: usize, hblks: usize, hblkhd: usize, usmblks: usize, fsmblks: usize, uordblks: usize, fordblks: usize, keepcost: usize }
+                unsafe extern "C" { fn mallinfo2() -> Mallinfo2; fn malloc_trim(pad: usize) -> i32; }
+                let mi = unsafe { mallinfo2() };
+                eprintln!("mallinfo: arena {} in-use {} free {} keepcost {}", mi.arena, mi.uordblks, mi.fordblks, mi.keepcost);
+                if std::env::var_os("LEAK_TRIM").is_some() { unsafe { malloc_trim(0); } }
                 eprintln!("after {} cases: rss {} KB (+{})", (chunk + 1) * 400, rss(), rss() - before);
             }
         }
